@@ -40,7 +40,7 @@ class C19:
         "distinct_nontrivial = distinct (history shape, switches) and distinct (script, corruption) pairs"
     )
     assumptions = [
-        "source mtimes are set explicitly with os.utime (strictly increasing by whole seconds) so timestamp granularity never decides a verdict",
+        "source mtimes are set explicitly with os.utime in virtual time, strictly increasing by 2 s, 1 s, 0.25 s or 4 ms (an edit right after a run lands in the same second as the entry); entries written by a run are stamped with the same virtual clock",
         "a well-formed header followed by marshal.dumps of a non-code object cannot be produced by a crash or another version, only by tampering: it is run and counted as informational, not judged",
         "random bit flips inside a well-formed marshalled code object are readable entries (the format has no checksum) and are out of scope",
         "the cache-free twin uses scriptcache=False, cacheall=False and both environment switches off, in its own data directory",
@@ -139,11 +139,16 @@ class C19:
         self.ex_c = self.Execer(scriptcache=True, cacheall=False)
         self.ex_u = self.Execer(scriptcache=False, cacheall=False)
 
-    def write(self, path, text):
+    def tick(self, rng=None):
+        """virtual time moves on - by whole seconds, or by a fraction of a second (an edit right after a run)"""
+        self.clock += rng.choice([2, 2, 1, 0.25, 0.004]) if rng is not None else 2
+        return self.clock
+
+    def write(self, path, text, rng=None):
         with open(path, "w", encoding="utf-8") as f:
             f.write(text)
-        self.clock += 2
-        os.utime(path, (self.clock, self.clock))
+        t = self.tick(rng)
+        os.utime(path, ns=(int(t * 1_000_000_000), int(t * 1_000_000_000)))
 
     def run_case(self, case, rec):
         if not hasattr(self, "XSH"):
@@ -155,31 +160,43 @@ class C19:
         rng = random.Random(case["rseed"])
         self.fresh()
         sw = case["sw"]
-        script = os.path.join(self.root, "s.xsh")
-        n = rng.randint(10, 99)
-        body = rng.choice(BODIES)
-        self.write(script, body.format(n=n))
+        # two projects with a script of the same name: run by absolute path or by the relative name from its own directory
+        scripts, ns_, bodies = [], [], []
+        for proj in ("alpha", "beta"):
+            d = os.path.join(self.root, proj)
+            os.makedirs(d, exist_ok=True)
+            scripts.append(os.path.join(d, "s.xsh"))
+            ns_.append(rng.randint(10, 99))
+            bodies.append(rng.choice(BODIES))
+            self.write(scripts[-1], bodies[-1].format(n=ns_[-1]), rng)
         kinds = []
+        os.chdir(self.root)
         for step in range(case["steps"]):
             r = rng.random()
+            w = 0 if rng.random() < 0.6 else 1
+            script = scripts[w]
             if r < 0.18:
-                n = rng.randint(10, 99)
-                body = rng.choice(BODIES)
-                self.write(script, body.format(n=n))
+                ns_[w] = rng.randint(10, 99)
+                bodies[w] = rng.choice(BODIES)
+                self.write(script, bodies[w].format(n=ns_[w]), rng)
                 kinds.append("w")
                 continue
             if r < 0.34:
-                n = (n + rng.randint(1, 9) - 10) % 90 + 10  # same number of digits: same size, new content
-                self.write(script, body.format(n=n))
+                ns_[w] = (ns_[w] + rng.randint(1, 9) - 10) % 90 + 10  # same number of digits: same size, new content
+                self.write(script, bodies[w].format(n=ns_[w]), rng)
                 kinds.append("e")
                 continue
             if r < 0.42:
-                self.clock += 2
-                os.utime(script, (self.clock, self.clock))
+                t = self.tick(rng)
+                os.utime(script, ns=(int(t * 1_000_000_000), int(t * 1_000_000_000)))
                 kinds.append("t")
                 continue
             if r < 0.75:
                 what, target, mode = "script", script, "exec"
+                if rng.random() < 0.5:
+                    os.chdir(os.path.dirname(script))
+                    target = "s.xsh" if rng.random() < 0.7 else "./s.xsh"
+                    rec.count("script_runs_by_relative_path")
                 kinds.append("R")
             else:
                 what, target = "code", open(script, encoding="utf-8").read()
@@ -190,6 +207,7 @@ class C19:
             if self.hits[0] > h0:
                 rec.count("cache_hits_observed")
             exp = self.run(what, target, False, sw, mode)
+            os.chdir(self.root)
             rec.count("cached_runs_compared")
             if got != exp:
                 if what == "code" and "Ce" in kinds and "Cs" in kinds and sw["ca"] | sw["CE"]:
